@@ -243,9 +243,11 @@ def run(chk):
             return list(pre_generated), benv.get("_trim_combinations")(list(pre_generated))
         try:
             for s in comb.node.body:
+                # the un-trimmed candidate list is what is handed to the trimming step (however it was assembled before)
+                tc = [c_ for c_ in ast.walk(s) if isinstance(c_, ast.Call) and unparse(c_.func) == "_trim_combinations" and len(c_.args) == 1]
+                if tc and "generated" not in captured:
+                    captured["generated"] = list(it.ev(tc[0].args[0], benv))
                 it.exec_stmt(s, benv)
-                if isinstance(s, ast.Assign) and isinstance(s.value, ast.Call) and unparse(s.value.func) == "_remove_duplicate_permutations":
-                    captured["generated"] = list(benv.get(unparse(s.targets[0])))
         except _Return as r:
             result = r.v
         return captured.get("generated"), result
